@@ -121,7 +121,14 @@ func classify(err error) int {
 }
 
 func keyName(i int) string { return fmt.Sprintf("k%d", i) }
-func valName(i int) string { return fmt.Sprintf("v%d", i) }
+// valName is the stored value of value number i; every 13th value is the empty byte string
+// (a value like any other: a hit that returns nothing but still is a hit).
+func valName(i int) string {
+	if i%13 == 5 {
+		return ""
+	}
+	return fmt.Sprintf("v%d", i)
+}
 
 var bg = context.Background()
 
